@@ -929,6 +929,28 @@ impl LeastSquaresProblem<f64, Dyn, U3> for CircleFit<'_> {
         Some(jac)
     }
 }
+/// Verification hook: state of the (private) circle fitting problem after construction and an optional parameter
+/// update: (weighted residuals, jacobian rows, weights).
+#[cfg(feature = "verif")]
+pub fn verif_circle_fit_eval(
+    points: &[Point2],
+    initial: &Circle2,
+    mode: BestFit,
+    x: Option<[f64; 3]>,
+) -> (Vec<f64>, Vec<[f64; 3]>, Vec<f64>) {
+    let mut problem = CircleFit::new(points, mode, initial);
+    if let Some(x) = x {
+        problem.set_params(&Vector3::new(x[0], x[1], x[2]));
+    }
+    let r = problem.residuals().unwrap();
+    let j = problem.jacobian().unwrap();
+    (
+        r.iter().copied().collect(),
+        (0..points.len()).map(|i| [j[(i, 0)], j[(i, 1)], j[(i, 2)]]).collect(),
+        problem.weights.iter().copied().collect(),
+    )
+}
+
 #[cfg(test)]
 mod tests {
     use super::*;
